@@ -13,26 +13,34 @@ type Field struct {
 	Qual  string // "" when the field has no qualifier (a WITH name's aliased column)
 	Name  string
 	T     Kind
+	Elem  Kind // element kind of a list column
 	NoRef bool // never referenced by the generator (a generated name that is also a function name, ...)
 }
 
 // Profile steers the generator.
 type Profile struct {
-	GroupBias   int // of 10: how often a select is a grouping select
-	MaxDepth    int // nesting of subqueries
-	AllowErrors bool
-	AliasShapes bool // grouping select lists without aliases / with repeated aliases / aliases equal to generated names
-	AllowTriple bool // ... including three columns of one name (finding class c03-triple-name on the tree without the fix)
-	TriggerBias int  // of 10: how often a grouping select carries a TRIGGER clause
-	Simple      bool // tables of short plain cells (every output mode can be parsed back)
-	SimpleEvery int  // every n-th case uses Simple tables
-	OrderLimit  bool // the ORDER BY + LIMIT family: duplicate rows, every limit from 0 to one past the row count
-	Logic       bool // the three-valued-logic family: WHERE / select expressions over nullable and non-nullable columns
-	Nested      bool // the nested-relation family: an outer select reading part of a DISTINCT / grouping / limited relation
+	GroupBias      int // of 10: how often a select is a grouping select
+	MaxDepth       int // nesting of subqueries
+	AllowErrors    bool
+	AliasShapes    bool // grouping select lists without aliases / with repeated aliases / aliases equal to generated names
+	AllowTripleMap bool // three columns of one name in a non-grouping select (finding class TripleClass on a tree without the fix)
+	TripleClass    string
+	Floats         bool // JSON number columns (Float)
+	AllowTriple    bool // ... including three columns of one name (finding class c03-triple-name on the tree without the fix)
+	TriggerBias    int  // of 10: how often a grouping select carries a TRIGGER clause
+	Simple         bool // tables of short plain cells (every output mode can be parsed back)
+	SimpleEvery    int  // every n-th case uses Simple tables
+	OrderLimit     bool // the ORDER BY + LIMIT family: duplicate rows, every limit from 0 to one past the row count
+	Logic          bool // the three-valued-logic family: WHERE / select expressions over nullable and non-nullable columns
+	Nested         bool // the nested-relation family: an outer select reading part of a DISTINCT / grouping / limited relation
 }
 
 var edgeInts = []int64{0, 1, -1, 2, 3, 5, 7, -7, 10, 42, math.MaxInt64, math.MinInt64, math.MaxInt64 - 1, math.MinInt64 + 1, 1 << 32, -(1 << 31), 4611686018427387904}
 var smallInts = []int64{0, 1, 2, 3, -1}
+
+// JSON numbers (every JSON number is read as a Float): no -0, NaN cannot be written
+var floatVals = []float64{0, 0.5, 1, 1.5, -2.25, 3, 2.5, 1e100, -1e-3, 9007199254740993, -1, 1e-300, math.MaxFloat64, 4.9e-324}
+var floatLits = []float64{0, 0.5, 1, 1.5, 2.5, 3}
 
 // sums and averages beyond 2^53 (not representable in a float64), near the int64 limits
 var bigInts = []int64{9007199254740993, -9007199254740993, 6000000000000000007, math.MaxInt64, math.MinInt64 + 1, 4611686018427387905, 9007199254740992 * 3, 1, 2, -1}
@@ -55,6 +63,7 @@ type Gen struct {
 	ctes   []cteInfo
 	nalias int
 	// set while generating
+	MainOut    []Field  // output columns of the main query
 	Triggers   []*Query // selects carrying a TRIGGER clause
 	TripleName bool     // some grouping select has three columns of one name
 	Shapes     map[string]int
@@ -96,6 +105,9 @@ func (g *Gen) GenTables() {
 			var k Kind
 			if isJSON {
 				k = []Kind{KStr, KBool, KStr, KNull}[r.Intn(4)]
+				if g.P.Floats && r.Chance(1, 2) {
+					k = KFloat
+				}
 			} else {
 				k = []Kind{KInt, KInt, KStr, KBool, KInt, KNull}[r.Intn(6)]
 			}
@@ -137,6 +149,12 @@ func (g *Gen) GenTables() {
 					}
 				case KBool:
 					row[c] = Bool(r.Bool())
+				case KFloat:
+					if small {
+						row[c] = Float([]float64{0, 0.5, 1, 2.5}[r.Intn(4)])
+					} else {
+						row[c] = Float(floatVals[r.Intn(len(floatVals))])
+					}
 				case KStr:
 					switch {
 					case g.P.Simple:
@@ -237,6 +255,11 @@ func (g *Gen) GenExpr(fs []Field, k Kind, depth int) Expr {
 		default:
 			return Un{"neg", g.GenExpr(fs, KInt, depth-1)}
 		}
+	case KFloat: // no arithmetic: column or literal
+		if f, ok := pick(r, fs, func(f Field) bool { return f.T == KFloat }); ok && r.Chance(3, 4) {
+			return g.colRef(f)
+		}
+		return Lit{Float(floatLits[r.Intn(len(floatLits))])}
 	case KStr:
 		if leaf {
 			if f, ok := pick(r, fs, func(f Field) bool { return f.T == KStr }); ok && r.Chance(3, 4) {
@@ -297,6 +320,9 @@ func (g *Gen) GenExpr(fs []Field, k Kind, depth int) Expr {
 			return Bin{"=", e, Lit{Bool(r.Bool())}}
 		case 0, 1, 2:
 			kk := []Kind{KInt, KInt, KStr, KBool}[r.Intn(4)]
+			if _, ok := pick(r, fs, func(f Field) bool { return f.T == KFloat }); ok && r.Chance(1, 2) {
+				kk = KFloat
+			}
 			op := []string{"=", "!=", "<", "<=", ">", ">="}[r.Intn(6)]
 			return Bin{op, g.GenExpr(fs, kk, depth-1), g.GenExpr(fs, kk, depth-1)}
 		case 3:
@@ -333,7 +359,20 @@ func (g *Gen) boolOrNull(fs []Field, depth int) Expr {
 }
 
 // any scalar kind for which the fields (or literals) give something
-func (g *Gen) anyKind() Kind { return []Kind{KInt, KInt, KStr, KBool}[g.R.Intn(4)] }
+func (g *Gen) anyKind() Kind {
+	if g.P.Floats && g.R.Chance(1, 6) {
+		return KFloat
+	}
+	return []Kind{KInt, KInt, KStr, KBool}[g.R.Intn(4)]
+}
+
+// numKind: Int, or Float when the fields have a Float column (min / max have both overloads)
+func (g *Gen) numKind(fs []Field) Kind {
+	if _, ok := pick(g.R, fs, func(f Field) bool { return f.T == KFloat }); ok && g.R.Chance(1, 2) {
+		return KFloat
+	}
+	return KInt
+}
 
 // ---- sources and queries ----
 
@@ -351,8 +390,9 @@ func (g *Gen) genSource(depth int) srcInfo {
 		q, out, ordered, _ := g.GenQuery(depth-1, false)
 		fs := make([]Field, len(out))
 		for i := range out {
-			fs[i] = Field{Qual: alias, Name: out[i].Name, T: out[i].T, NoRef: out[i].NoRef}
+			fs[i] = Field{Qual: alias, Name: out[i].Name, T: out[i].T, Elem: out[i].Elem, NoRef: out[i].NoRef}
 		}
+		markAmbiguous(fs)
 		return srcInfo{Source{Kind: "sub", Sub: q, Alias: alias}, fs, ordered}
 	case len(g.ctes) > 0 && r.Chance(1, 3):
 		c := g.ctes[r.Intn(len(g.ctes))]
@@ -435,7 +475,7 @@ func (g *Gen) GenQuery(depth int, top bool) (*Query, []Field, bool, bool) {
 		for i := 0; i < nagg; i++ {
 			a := g.fresh("g")
 			it := Item{Alias: a}
-			var t Kind
+			var t, elem Kind
 			switch r.Intn(10) {
 			case 9:
 				it.Agg, it.E, t = "avg", g.GenExpr(fs, KInt, 0), KInt
@@ -452,14 +492,17 @@ func (g *Gen) GenQuery(depth int, top bool) (*Query, []Field, bool, bool) {
 				it.Agg, it.E, t = "avg", g.GenExpr(fs, KInt, 1), KInt
 				it.Dist = r.Chance(1, 3)
 			case 5:
-				it.Agg, it.E, t = "min", g.GenExpr(fs, KInt, 1), KInt
+				t = g.numKind(fs)
+				it.Agg, it.E = "min", g.GenExpr(fs, t, 1)
 			case 6:
-				it.Agg, it.E, t = "max", g.GenExpr(fs, KInt, 1), KInt
+				t = g.numKind(fs)
+				it.Agg, it.E = "max", g.GenExpr(fs, t, 1)
 			default:
-				it.Agg, it.E, t = "array_agg", g.GenExpr(fs, g.anyKind(), 1), KList
+				elem = g.anyKind()
+				it.Agg, it.E, t = "array_agg", g.GenExpr(fs, elem, 1), KList
 				it.Dist = r.Chance(1, 3)
 			}
-			sels = append(sels, sel{it, Field{Name: a, T: t}})
+			sels = append(sels, sel{it, Field{Name: a, T: t, Elem: elem}})
 		}
 		// shuffle the select list
 		for i := len(sels) - 1; i > 0; i-- {
@@ -494,7 +537,7 @@ func (g *Gen) GenQuery(depth int, top bool) (*Query, []Field, bool, bool) {
 				}
 				a := g.fresh("c")
 				q.Items = append(q.Items, Item{E: g.colRef(f), Alias: a})
-				out = append(out, Field{Name: a, T: f.T})
+				out = append(out, Field{Name: a, T: f.T, Elem: f.Elem})
 			}
 			g.shape("subset projection of a nested relation")
 			if sub := si.src.Sub; sub != nil && !sub.Distinct && r.Chance(1, 2) {
@@ -506,7 +549,7 @@ func (g *Gen) GenQuery(depth int, top bool) (*Query, []Field, bool, bool) {
 		} else if r.Chance(1, 8) {
 			q.Items = []Item{{Star: true}}
 			for _, f := range fs {
-				out = append(out, Field{Name: f.Name, T: f.T})
+				out = append(out, Field{Qual: f.Qual, Name: f.Name, T: f.T, Elem: f.Elem})
 			}
 		} else {
 			n := 1 + r.Intn(4)
@@ -515,16 +558,21 @@ func (g *Gen) GenQuery(depth int, top bool) (*Query, []Field, bool, bool) {
 			}
 			for i := 0; i < n; i++ {
 				if r.Chance(1, 12) && !hasStar(q.Items) {
-					q.Items = append(q.Items, Item{Star: true})
+					it := Item{Star: true}
+					if si.src.Kind != "cte" && len(fs) > 0 && fs[0].Qual != "" && r.Chance(1, 2) {
+						it.QStar = fs[0].Qual // t.*: every field of a table / subquery source carries its alias
+						g.shape("qualified star")
+					}
+					q.Items = append(q.Items, it)
 					for _, f := range fs {
-						out = append(out, Field{Name: f.Name, T: f.T})
+						out = append(out, Field{Qual: f.Qual, Name: f.Name, T: f.T, Elem: f.Elem})
 					}
 					continue
 				}
 				a := g.fresh("c")
 				if f, ok := pick(r, fs, func(Field) bool { return true }); ok && r.Chance(1, 3) {
 					q.Items = append(q.Items, Item{E: g.colRef(f), Alias: a}) // also passes list and NULL-typed columns through
-					out = append(out, Field{Name: a, T: f.T})
+					out = append(out, Field{Name: a, T: f.T, Elem: f.Elem})
 					continue
 				}
 				if r.Chance(1, 15) {
@@ -537,6 +585,9 @@ func (g *Gen) GenQuery(depth int, top bool) (*Query, []Field, bool, bool) {
 				out = append(out, Field{Name: a, T: k})
 			}
 		}
+	}
+	if !grouping {
+		g.nameMapItems(q.Items, fs, out)
 	}
 	// nested selects (subquery in FROM, WITH) are DISTINCT more often and have >= 2 columns: the outer select then
 	// usually reads a strict subset of the columns of a DISTINCT / grouping / ORDER BY+LIMIT relation
@@ -612,6 +663,7 @@ func (g *Gen) GenTop() *Top {
 	}
 	var out []Field
 	t.Main, out, _, _ = g.GenQuery(g.P.MaxDepth, true)
+	g.MainOut = out
 	// a TRIGGER clause makes the plan emit retractions; -o json consolidates them only through the
 	// OrderSensitiveTransform, so such a statement gets a top-level ORDER BY (or loses its triggers)
 	if len(g.Triggers) > 0 && len(t.Main.OrderBy) == 0 {
@@ -628,45 +680,6 @@ func (g *Gen) GenTop() *Top {
 		}
 	}
 	return t
-}
-
-// OutNames gives the column names the CLI prints for the main query (formats.WithoutQualifiers).
-func (g *Gen) OutNames(q *Query) []string {
-	var names []string
-	for _, it := range q.Items {
-		if it.Star {
-			for _, f := range g.sourceFieldNames(q.From) {
-				names = append(names, f)
-			}
-		} else {
-			names = append(names, it.Alias)
-		}
-	}
-	return names
-}
-
-func (g *Gen) sourceFieldNames(s Source) []string {
-	switch s.Kind {
-	case "table":
-		for _, t := range g.Tables {
-			if t.Name == s.Table {
-				return t.Cols
-			}
-		}
-	case "sub":
-		return g.OutNames(s.Sub)
-	case "cte":
-		for _, c := range g.ctes {
-			if c.name == s.Table {
-				out := make([]string, len(c.fields))
-				for i := range c.fields {
-					out[i] = c.fields[i].Name
-				}
-				return out
-			}
-		}
-	}
-	return nil
 }
 
 // ---- names of a grouping select list ----
@@ -766,9 +779,7 @@ func (g *Gen) nameGroupingItems(items []Item, keys []Expr) ([]string, []bool) {
 	noref := make([]bool, n)
 	for i := range items {
 		names[i] = un.get(base[i])
-		if mult(base[i]) >= 3 {
-			g.TripleName = true
-		}
+
 		items[i].Alias = names[i]
 		if !items[i].NoAlias && items[i].SQLAlias == "" && names[i] != base[i] {
 			items[i].SQLAlias = base[i]
@@ -1017,4 +1028,105 @@ func (g *Gen) GenLogicTop(i int) *Top {
 	}
 	g.shape("three-valued logic family")
 	return &Top{Main: q}
+}
+
+// markAmbiguous: a column whose (short) name is not unique among the fields is never referenced.
+func markAmbiguous(fs []Field) {
+	count := map[string]int{}
+	for _, f := range fs {
+		count[f.Name]++
+	}
+	for i := range fs {
+		if count[fs[i].Name] > 1 {
+			fs[i].NoRef = true
+		}
+	}
+}
+
+// nameMapItems decides how the items of a non-grouping select list are written (fresh alias / no alias / an alias
+// repeating another column's name) and sets the names of the output columns as logical.Map.Typecheck derives them:
+// the alias; for an un-aliased column reference the (qualified) name of the field it reads; otherwise col_<position>;
+// repeated names get _<n> (out has one entry per expanded column, stars expanded in place).
+func (g *Gen) nameMapItems(items []Item, fs []Field, out []Field) {
+	r := g.R
+	type cand struct{ qual, name string }
+	var cands []cand
+	var owner []int // item of each expanded column
+	for i := range items {
+		it := &items[i]
+		if it.Star {
+			for _, f := range fs {
+				cands = append(cands, cand{f.Qual, f.Name})
+				owner = append(owner, i)
+			}
+			continue
+		}
+		if g.P.AliasShapes && r.Chance(1, 5) {
+			it.NoAlias = true
+			g.shape("item without alias")
+		}
+		c := cand{"", it.Alias}
+		if it.NoAlias {
+			c = cand{"", fmt.Sprintf("col_%d", len(cands))}
+			if col, ok := it.E.(Col); ok {
+				for _, f := range fs {
+					if f.Name == col.Name && (col.Qual == "" || col.Qual == f.Qual) {
+						c = cand{f.Qual, f.Name}
+						break
+					}
+				}
+			}
+		}
+		cands = append(cands, c)
+		owner = append(owner, i)
+	}
+	mult := func(c cand) int {
+		n := 0
+		for _, x := range cands {
+			if x == c {
+				n++
+			}
+		}
+		return n
+	}
+	aliased := func(k int) bool { return !items[owner[k]].Star && !items[owner[k]].NoAlias }
+	if g.P.AliasShapes && len(cands) >= 2 && r.Chance(1, 4) {
+		j, i := r.Intn(len(cands)), r.Intn(len(cands))
+		if i != j && aliased(j) && cands[i].qual == "" && cands[j] != cands[i] && mult(cands[i]) == 1 {
+			items[owner[j]].SQLAlias = cands[i].name
+			cands[j] = cands[i]
+			g.shape("alias repeating another column's name")
+		}
+	}
+	if g.P.AllowTripleMap && len(cands) >= 3 && r.Chance(1, 12) {
+		t := cands[r.Intn(len(cands))]
+		if t.qual == "" {
+			n := 0
+			for j := range cands {
+				if aliased(j) && cands[j] != t && n < 2 {
+					items[owner[j]].SQLAlias = t.name
+					cands[j] = t
+					n++
+				}
+			}
+			if mult(t) >= 3 {
+				g.TripleName = true
+				g.shape("three columns of one name (Map)")
+			}
+		}
+	}
+	un := uniqueNamer{}
+	for k, c := range cands {
+		key := c.name
+		if c.qual != "" {
+			key = c.qual + "." + c.name
+		}
+		got := un.get(key)
+		out[k].Qual = c.qual
+		out[k].Name = got[len(key)-len(c.name):]
+		if mult(c) >= 3 {
+			out[k].NoRef = true
+		}
+	}
+	markAmbiguous(out)
 }
